@@ -71,7 +71,7 @@ def isDirtyStep (ood : Bool) (R : Nat)
         let new := readStamp w f
         if old ≠ new then
           let w := if new = .missing ∧ r.isGenerated then
-              setRec w f { r with isGenerated := false, failed := some 0 } else w
+              setRec w f { r with isGenerated := false, isOverride := false, failed := some 0 } else w
           (if r.csum.isSome then .need [f] else .dirty, w, cache)
         else
           let mx' := max ch (r.checked.getD 0)
